@@ -320,6 +320,30 @@ def check(recipe, mode):
                 raise Violation('pair-rule-unsound', f'(A.T @ B).reduce() for two different reshapes {f}->{out_shape}<-{in_shape} '
                                                      f'returned shape {np.shape(z)}')
             classes.append('near_miss_partner')
+    if recipe['op'] == 'move' and len({len(sh) for sh, _ in ls}) >= 2:
+        # the "inverse" written with the other sign convention relative to the FIRST leaf's rank: an inverse pair for
+        # leaves of that rank only
+        from furax import MoveAxisOperator
+
+        nd0 = len(ls[0][0])
+        minr = min(len(sh) for sh, _ in ls)
+        flip = lambda a: a - nd0 if a >= 0 else a + nd0  # noqa: E731
+        src2, dst2 = [flip(a) for a in recipe['dst']], [flip(a) for a in recipe['src']]
+        if all(-minr <= a < minr for a in src2 + dst2):
+            try:
+                ref = [np.moveaxis(a, tuple(src2), tuple(dst2)) for a in want]
+            except Exception:  # noqa: BLE001
+                ref = None
+            if ref is not None:
+                partner = MoveAxisOperator(tuple(src2), tuple(dst2), in_structure=St.to_jax(out_S))
+                rp = must_not_raise('near-miss-move-pair-reduce', (partner @ op).reduce)
+                z = must_not_raise('near-miss-move-pair-mv', rp.mv, x)
+                gotz = St.flat_of_value(z)
+                wz = np.concatenate([a.reshape(-1) for a in ref])
+                if gotz.shape != wz.shape or not np.array_equal(gotz, wz):
+                    raise Violation('move-pair-rule-unsound', f'(Move({src2}->{dst2}) @ Move({recipe["src"]}->{recipe["dst"]})).reduce() '
+                                                              f'changes the map on leaves of shapes {[sh for sh, _ in ls]}')
+                classes.append('near_miss_move_partner')
     nontrivial = len({len(sh) for sh, _ in ls}) >= 2
     if recipe['op'] == 'move':
         sg = [a < 0 for a in list(recipe['src']) + list(recipe['dst'])]
